@@ -327,6 +327,11 @@ func (r *Runner) execMacro(a Action) {
 			w.Advance(30*time.Millisecond, r.sample)
 			r.feat("stale-suffix-built")
 		}
+		if len(a.Set) > 0 && a.Set[0] > 0 {
+			// the old leader's log store fails some reads while it is brought back:
+			// it rejects requests it could have accepted, the leader walks further back
+			r.exec(Action{Op: "flakyreads", Srv: li, N: 30, Arg: a.Set[0]})
+		}
 		r.exec(Action{Op: "heal"})
 	case "lagcompact":
 		// one follower is cut while the others write, snapshot and compact
